@@ -61,8 +61,12 @@ def run(prop, tier):
         first = 0
         F.selftest_codec()
         paths, metas, lst = F.make_corpus(os.path.join(wd, "corpus"), 200 if q else 10000, first=300000)
-        plan = [("c13", False, 260 if q else 15000, ["--maxdesc", "255"]), ("c13", True, 340 if q else 20000, []), ("mixed", False, 100 if q else 5000, ["--start", lst, "--maxops", "16"]),
-                ("c10", True, 100 if q else 5000, ["--start", lst, "--startpct", "50"])]
+        # load-then-edit histories start from the encoder corpus only: the 1-2 MB vendor files make every per-call snapshot take seconds
+        # (they are loaded, printed, re-saved and taken through 3 generations below)
+        slst = os.path.join(wd, "start.txt")
+        open(slst, "w").write("\n".join(p for p in paths if not p.startswith("/repo/")) + "\n")
+        plan = [("c13", False, 260 if q else 15000, ["--maxdesc", "255"]), ("c13", True, 340 if q else 20000, []), ("mixed", False, 100 if q else 5000, ["--start", slst, "--maxops", "16"]),
+                ("c10", True, 100 if q else 5000, ["--start", slst, "--startpct", "50"])]
         for wi, (profile, wild, cnt, extra) in enumerate(plan):
             out = os.path.join(wd, "h%d" % wi)
             args = ["--profile", profile, "--maxops", "40" if q else "60"] + (["--wild"] if wild else []) + extra
